@@ -174,6 +174,9 @@ slot_base::delete_rep_with_check()
     // may own this slot_base, which is then deleted together with the functor.
     auto old_rep_ = rep_;
     rep_ = nullptr;
+    // Notify while the observers still exist. The functor in the slot_rep may own
+    // one of them (a sigc::connection to this slot), which can't deregister any more.
+    old_rep_->notify_callbacks();
     delete old_rep_; // Detach the stored functor from the other referred trackables and destroy it.
   }
 }
@@ -206,6 +209,9 @@ slot_base::operator=(const slot_base& src)
     // Deleting it may delete the parent, which then must detach from the new slot_rep.
     auto old_rep_ = rep_;
     rep_ = new_rep_;
+    // Notify while the observers still exist. The functor in the old slot_rep may own
+    // one of them (a sigc::connection to this slot), which can't deregister any more.
+    old_rep_->notify_callbacks();
     delete old_rep_; // Calls destroy(), but does not call disconnect().
   }
   else
@@ -255,6 +261,9 @@ slot_base::operator=(slot_base&& src)
     // Deleting it may delete the parent, which then must detach from the new slot_rep.
     auto old_rep_ = rep_;
     rep_ = new_rep_;
+    // Notify while the observers still exist. The functor in the old slot_rep may own
+    // one of them (a sigc::connection to this slot), which can't deregister any more.
+    old_rep_->notify_callbacks();
     delete old_rep_; // Calls destroy(), but does not call disconnect().
   }
   else
